@@ -257,6 +257,18 @@ def candidatesPanic (cfg : Cfg) (st : State) : Bool :=
 /-- `MinerPoolReader.GetProposeMiner(id)`: the proposer registry's record, whatever its status. -/
 def proposeMiner (cfg : Cfg) (st : State) (id : Bytes) : Option Miner := getMinerById cfg st .prop id
 
+/-- Add to a Go `map[common.Address]uint64` entry (`detail[addr] = stake + detail[addr]`, `uint64`). -/
+def mapAdd (l : List (Bytes × Nat)) (k : Bytes) (v : Nat) : List (Bytes × Nat) :=
+  (k, (v + ((l.lookup k).getD 0)) % 2 ^ 64) :: l.filter (fun e => e.1 ≠ k)
+
+/-- `MinerManager.GetValidatorsStake(members)`: stake and account are read straight from the slots of the validator
+    registry (no record check); members without stake are skipped; per-address detail and `uint64` total. -/
+def validatorsStake (cfg : Cfg) (st : State) (members : List Bytes) : Nat × List (Bytes × Nat) :=
+  members.foldl (fun acc id =>
+    let s := u64 ((st.live .val).get (slotStake cfg id))
+    if s = 0 then acc
+    else ((acc.1 + s) % 2 ^ 64, mapAdd acc.2 (toAddr ((st.live .val).get (slotAcct cfg id))) s)) (0, [])
+
 /-! ## writers -/
 
 /-- `MinerManager.UpdateMiner` (Proposal003 active). The registry is chosen by the record's type,
@@ -532,6 +544,49 @@ def vmUnstakeAll (cfg : Cfg) (st : State) (contract : Bytes) : Bool × State :=
     | some m =>
       if contract ≠ m.account then (false, st)
       else (true, (refundCore cfg st id contract m m.stake).escAdd (st.height + refundDelay) m.account (m.stake * wei))
+
+/-! ## the operator-node transaction (type 7, executor/miner_node_executor.go)
+
+`minerNodeExecutor.Execute`: the sender pays 10 tokens (debited, credited to nobody), the miner it controls is looked up
+by account (block-stale iterator), the main-node contract is called through the EVM (`generateContractAddress`: the
+call must succeed with exactly 4 logs, the 4th carrying ≥ 32 bytes; the address is bytes 12..32 of it) — an external
+input `create2 : Option Bytes` here — and the miner's account becomes that address, WITHOUT the
+"account already controls a miner" check the change-account transaction makes. -/
+
+def nodePrice : Nat := 10 * wei
+
+/-- `Execute` of the operator-node executor; like the other executors a failing run returns the state it was given
+    (the debit is journaled and reverted by `RevertToSnapshot`). -/
+def execNode (cfg : Cfg) (st : State) (src : Bytes) (create2 : Option Bytes) : String × State :=
+  let owner := toAddr src
+  if st.balOf owner < nodePrice then ("fail:rpg", st)
+  else
+    let st1 := st.subBal owner nodePrice
+    match byAccount cfg st1 src with
+    | none => ("fail:nominer", st)
+    | some id =>
+      match getMiner cfg st1 id with
+      | none => ("fail:nominer", st)
+      | some m =>
+        match create2 with
+        | none => ("fail:create2", st)
+        | some a => ("ok", updateMiner cfg st1 { m with account := a } none)
+
+/-- The transaction as `VMExecutor.Execute` runs it (fee, snapshot, `Execute`, revert on failure). -/
+def runNode (cfg : Cfg) (st : State) (src : Bytes) (create2 : Option Bytes) : String × State :=
+  match processFee st src with
+  | none => ("skip:nofee", st)
+  | some st1 =>
+    let r := execNode cfg st1 src create2
+    if r.1 = "ok" then r else (r.1, st1)
+
+/-- `MinerManager.RemoveUnusedValidator(whitelist)` (run by `core.removeUnusedValidator` at the robin-only heights
+    Proposal010Block / Proposal019Block): every validator the (block-stale) iterator yields with status normal whose
+    id is not whitelisted is removed with `left = 0` — deleted, or aborted with stake 0 when its account is a
+    contract — and nothing is refunded. -/
+def removeUnusedValidator (cfg : Cfg) (st : State) (white : List Bytes) : State :=
+  ((iter cfg st .val).filter (fun m => m.status = statusNormal ∧ m.id ∉ white)).foldl
+    (fun st m => removeMiner cfg st m.id m.account typeValidator 0) st
 
 /-- `MinerManager.InsertMiner` (genesis: no debit, no account/id cross-check). -/
 def insertMiner (cfg : Cfg) (st : State) (info : Info) (stake status : Nat) (account : Bytes) : Int × State :=
